@@ -374,8 +374,22 @@ def c01_ttf():
         qs.append(Q(f"glyf_len{L}", "ttf.cpp", "vh_glyf", {"LEN": L}, unwind=4, unwindset={"vh_bytes": L + 2}))
     for L in (4, 5, 6, 8, 10):
         qs.append(Q(f"hmtx_len{L}", "ttf.cpp", "vh_hmtx", {"LEN": L}, unwind=4, unwindset={"vh_bytes": 38}))
+    for nr, ne, rcl, acl in ((1, 1, 0, 1), (1, 2, 2, 3), (2, 2, 2, 3)):
+        pass
+        qs.append(Q(f"readrules_r{nr}e{ne}_rc{rcl}ac{acl}", "passload.cpp", "vh_readrules", {"NRULES": nr, "NENT": ne, "RCLEN": rcl, "ACLEN": acl, "VH_READRULES": None, "REACH_ACCEPT": None}, unwind=8,
+                    unwindset={"vh_bytes": 12, "readRules": max(nr, ne) + 3, "vh_readrules": max(nr, ne) + 3},
+                    stubs=["_ZN9graphite22vm7Machine4CodeC2EbPKhS4_htRKNS_4SilfERKNS_4FaceENS_8passtypeEPPh"], unit_flags={"Pass": ["-fno-inline"], "Code": ["-fno-inline"]}))
     return qs
-C01_PARTS = [c01_cmap, c01_name, c01_decoder, feat_queries, c01_pass, c01_silf, c01_silfhdr, c01_ttf]
+def c01_reach():
+    """vacuity guards: copies of loader queries whose witness twin must reach an ACCEPTING run (the ordinary witness only reaches the end of the harness)"""
+    import copy
+    want = {"readranges_g3_r2", "readstates_s2t1u1c2r1m2p1", "classmap_v2_c1_len20", "classmap_v4_c1_len24", "classmap_v2_c2_len24", "silfhdr_v2_j0c0t0p0s0_len52", "silfhdr_v3_j1c0t0p0s0_len68"}
+    qs = []
+    for q in c01_pass() + c01_silf() + c01_silfhdr():
+        if q.name in want:
+            r = copy.copy(q); r.defines = dict(q.defines, REACH_ACCEPT=None); r.name = q.name + "_accepts"; r.tiers = ("quick", "thorough"); qs.append(r)
+    return qs
+C01_PARTS = [c01_cmap, c01_name, c01_decoder, feat_queries, c01_pass, c01_silf, c01_silfhdr, c01_ttf, c01_reach]
 @prop("C01")
 def c01():
     qs = []
